@@ -151,7 +151,16 @@ def _prof_layout(g, n):
             b = max(g.pick([size - 1, size, size, size, size + 1]), 0)
             inside = g.r.randint(0, max(size - 1, 0))
             shape = g.pick(["bare_bool", "bare_bool", "bool_range", "uint_1", "uint_cross", "empty", "rev_bool", "rev_bool",
-                            "rev_uint", "bool_wide", "bool_conv", "nested_later", "nested_earlier"])
+                            "rev_uint", "bool_wide", "bool_conv", "nested_later", "nested_earlier", "very_wide"])
+            if shape == "very_wide":
+                # a field set larger than 128 bits with one field wider than any carrier (and narrower ones next to it)
+                size = g.pick([136, 160, 200, 256])
+                w = g.pick([129, 130, size - 8, size])
+                fields = [{"name": "wide", "base": g.pick(["uint", "int"]), "start": 0, "end": w}]
+                if w + 4 <= size:
+                    fields.append({"name": "tail", "base": "uint", "start": w, "end": w + 4})
+                if g.chance(0.3):
+                    fields[0]["conversion"] = {"type": "conv::Ty", "try": g.chance(0.5)}
             nm = "edge"
             if shape == "bare_bool":
                 fields.append({"name": nm, "base": "bool", "start": b})
@@ -170,7 +179,7 @@ def _prof_layout(g, n):
                 fields = [{"name": nm, "base": "bool", "start": 0, "end": min(size, g.pick([2, 3, 8]))}]
             elif shape == "bool_conv":
                 fields = [{"name": nm, "base": "bool", "start": inside, "conversion": {"type": "conv::Ty", "try": g.chance(0.5)}}]
-            elif size >= 4:
+            elif shape in ("nested_later", "nested_earlier") and size >= 4:
                 # one field strictly inside another, in either declaration order
                 a0 = g.r.randint(0, size - 4); a1 = g.r.randint(a0 + 3, size)
                 b0 = g.r.randint(a0 + 1, a1 - 2); b1 = g.r.randint(b0 + 1, a1 - 1)
@@ -1057,6 +1066,10 @@ def prof_names(g, n):
         elif defect == "device_name":
             dev = g.pick(["dev", "my_dev", "myDev", "MY_DEV", "Dev_x"])
         cfg = {"register_address_type": "i32", "command_address_type": "i32", "buffer_address_type": "i32", "default_byte_order": "LE"}
+        if g.chance(0.4):
+            # configured word boundaries: every name (ref targets included) is normalised with the SAME converter
+            cfg["name_word_boundaries"] = g.pick([["Underscore"], ["Underscore", "Hyphen"], ["Underscore", "LowerUpper"],
+                                                  ["Underscore", "LowerUpper", "UpperLower", "Acronym", "DigitUpper"]])
         syn = pick_syntax(g, (5, 4, 1, 1)) if defect != "cfg_twins" else "dsl"   # one table cannot hold a key twice
         out.append(case({"config": cfg, "objects": objs}, syn, "names", device_name=dev, defect=defect))
     return out
@@ -1169,7 +1182,9 @@ def cases_for(prop, tier, seed):
     if prop == "C16":
         return CORPUS.get(prop, []) + prof_four_syntaxes(g, 120 * k) + prof_defaults(g, 80 * k)
     if prop == "C06":
-        cs = []
+        cs = [case({"config": {"register_address_type": "u8", "default_byte_order": "LE"}, "objects": [
+            {"kind": "register", "name": "Wide", "address": "1", "size_bits": 160,
+             "fields": [{"name": "v", "base": "uint", "start": 0, "end": 160}]}]}, "json", "layout")]
         for i in range(400 * k):
             cs.append(case(common_fragment_adef(g), pick_syntax(g, (3, 3, 2, 2)), "api"))
         return CORPUS.get(prop, []) + cs + prof_layout(g, 100 * k)
@@ -1245,7 +1260,10 @@ def cases_for(prop, tier, seed):
         f14 = case({"config": {"register_address_type": "u8"}, "objects": [
             {"kind": "block", "name": "Dev", "address_offset": "1", "objects": [
                 {"kind": "register", "name": "R", "address": "1", "size_bits": 8, "fields": []}]}]}, "dsl", "nocfg")
-        return CORPUS.get(prop, []) + [f14] + [case(nocfg_adef(g), pick_syntax(g, (3, 3, 2, 2)), "nocfg") for _ in range(90 * k)]
+        f18 = case({"config": {"register_address_type": "u8", "default_byte_order": "LE"}, "objects": [
+            {"kind": "register", "name": "Wide", "address": "1", "size_bits": 160,
+             "fields": [{"name": "v", "base": "uint", "start": 0, "end": 160}]}]}, "dsl", "nocfg")
+        return CORPUS.get(prop, []) + [f14, f18] + [case(nocfg_adef(g), pick_syntax(g, (3, 3, 2, 2)), "nocfg") for _ in range(90 * k)]
     return _cases_for_base5(prop, tier, seed)
 
 
